@@ -81,6 +81,29 @@ type rtype struct {
 // are represented by the engine's rval, never by a structure.
 var reflectValueNamed *types.Named
 
+// opaqueNamed lists named struct types of opaque packages whose values are
+// host objects (a single engine value), never structures.
+var opaqueNamed = map[string]bool{"regexp.Regexp": true}
+
+func isOpaqueNamed(T types.Type) bool {
+	n, ok := T.(*types.Named)
+	if !ok {
+		return false
+	}
+	if n == reflectValueNamed {
+		return true
+	}
+	o := n.Obj()
+	if o.Pkg() == nil {
+		return false
+	}
+	switch o.Pkg().Path() {
+	case "regexp":
+		return opaqueNamed["regexp."+o.Name()]
+	}
+	return false
+}
+
 // sym is a symbolic scalar: a Go basic kind plus an SMT term of the matching sort.
 type sym struct {
 	k types.BasicKind
@@ -274,7 +297,7 @@ func equals(w *worker, t types.Type, x, y value) value {
 		if x.t == nil {
 			return true
 		}
-		if !types.Comparable(x.t) {
+		if x.t != rtypeType && x.t != errorType && !types.Comparable(x.t) {
 			panic(runtimeError("comparing uncomparable type " + x.t.String()))
 		}
 		return equals(w, x.t, x.v, yi.v)
@@ -382,7 +405,7 @@ func hash(outer, t types.Type, x value) int {
 
 // load returns the value of type T in *addr.
 func load(T types.Type, addr *value) value {
-	if T == types.Type(reflectValueNamed) {
+	if isOpaqueNamed(T) {
 		return *addr
 	}
 	switch T := T.Underlying().(type) {
@@ -407,7 +430,7 @@ func load(T types.Type, addr *value) value {
 
 // store stores value v of type T into *addr.
 func store(T types.Type, addr *value, v value) {
-	if T == types.Type(reflectValueNamed) {
+	if isOpaqueNamed(T) {
 		*addr = v
 		return
 	}
